@@ -17,7 +17,10 @@ REQUIRED_THEOREMS = [
 ]
 RULE = ("cases = story documents (reference corpus, corpus sources compiled by the repo compiler, generated "
         "programs, random content trees) audited object by object + random path texts; a case is non-trivial "
-        "when its tree has at least one named container and one path-carrying reference; distinct by content hash")
+        "when its tree has at least one named container and one path-carrying reference; distinct by content hash; plus "
+        "cases = one story x one host history (incl. flows created and not yet continued, saves before the first "
+        "continue) in which every save taken is loaded by another story and saved again: the positions written "
+        "(container path + index of every call-stack element, choice paths, choice threads) must come back the same")
 ASSUMPTIONS = [
     "object identity in the model is tree position; the hook compares Rc addresses",
     "hash equality of the real hasher is compared with text equality of the model (SipHash collisions ignored)",
